@@ -1422,7 +1422,8 @@ impl Value {
         // the document must end inside the input, not in the padding (an unterminated string
         // is closed by the `x"x` sentinel)
         if idx > json.len() {
-            return Err(parser.error(crate::error::ErrorCode::EofWhileParsing));
+            let err = parser.error(crate::error::ErrorCode::EofWhileParsing);
+            return Err(err.relocate(json, json.len()));
         }
 
         // NOTE: root node should is the first node
